@@ -67,6 +67,7 @@ class Gen:
     def __init__(self, rng, std="f2003", size=1.0, feats=None):
         self.r = rng
         self.cyc_i = rng.randrange(1000)
+        self.cyc_e = rng.randrange(1000)
         self.std = std
         self.size = size
         self.out = []
@@ -721,7 +722,7 @@ class Gen:
         if r0 < 0.65:
             self.emit("implicit none", kind="implicit")
         elif r0 < 0.85:
-            self.emit(self.ch(["implicit real (a-h, o-z)", "implicit integer (i-n), real (a-h, o-z)",
+            self.emit(self.cyc(["implicit real (a-h, o-z)", "implicit integer (i-n), real (a-h, o-z)",
                                "implicit double precision (d), complex (z)", "implicit real(kind = 8) (a-c, x)",
                                "implicit character(len = 4) (s), logical (l)", "implicit type(typPoint) (t)"]),
                       kind="implicit_spec")
@@ -887,8 +888,13 @@ class Gen:
                        ("integer, codimension[*] :: coI", "codimension"),
                        ("real, codimension[2, 0:1, *] :: coR(3)", "codimension"),
                        ("real, allocatable, codimension[:, :] :: coA(:)", "codimension")]
-        self.r.shuffle(extras)
-        for t, k in extras[: self.r.randrange(2, 7)]:
+        # a rotating window over the list (shuffling left a third of the forms out of 100 programs)
+        nx = self.r.randrange(3, 8)
+        x0 = self.cyc_e % len(extras)
+        self.cyc_e += nx
+        picked = [extras[(x0 + j) % len(extras)] for j in range(min(nx, len(extras)))]
+        self.r.shuffle(picked)
+        for t, k in picked:
             if k is None:
                 continue
             fe = ("f2008",) if k in ("contiguous", "codimension") else ()
@@ -950,10 +956,10 @@ class Gen:
         self.unit_kind = kind
         self.spec_part()
         self.emit("real :: argA, argB", kind="decl")
-        if internal_ok and self.p(0.15):
-            self.emit(self.ch(["entry altE(argA)", "entry altE", "entry altE()", "entry altE() bind(c, name = \"Alt_E\")"])
+        if internal_ok and self.p(0.35):
+            self.emit(self.cyc(["entry altE(argA)", "entry altE", "entry altE()", "entry altE() bind(c, name = \"Alt_E\")"])
                       if kind == "subroutine"
-                      else self.ch(["entry altE(argA)", "entry altE(argA) result(resW)", "entry altE() result(resW)",
+                      else self.cyc(["entry altE(argA)", "entry altE(argA) result(resW)", "entry altE() result(resW)",
                                     "entry altE() bind(c)"]), kind="entry")
         self.exec_part()
         if self.p(0.3):
